@@ -137,6 +137,25 @@ CLAIMED = {
                   "empty containers, docstring vocabulary for documented exceptions",
         design="DESIGN.md §4 C12, appendix B.4",
     ),
+    "C14": dict(
+        level="other",
+        text="Structural clauses of table rectangularity and merge consistency: in _Cell.merge the same-table and "
+             "contains-merged-cell refusals (ValueError) dominate every mutating statement, in split the merge-origin test does; "
+             "merge, split, contains_merged_cell, is_merge_origin and is_spanned share one span vocabulary {rowSpan, gridSpan, "
+             "hMerge, vMerge} with split resetting each to its neutral value; the five TcRange iterators are decoded from their "
+             "slice expressions into row/column intervals over top/bottom/left/right and merge must write rowSpan over the top "
+             "row, gridSpan over the left column, hMerge over all-but-left-column and vMerge over all-but-top-row, the refusal "
+             "scan / split / content move ranging over the whole rectangle; extents are (min, |difference|+1) per axis, "
+             "bottom=top+height, right=left+width, from_merge_origin's far corner is origin+span-1; size setters store then "
+             "notify unconditionally and the chain ends in frame size = sum over all rows/columns; new_tbl adds cols grid "
+             "columns, rows rows and cols cells per row with sizes that sum to the requested size (polynomial identity with the "
+             "floor division opaque); the frame is created with the same extents; no other function adds or removes rows, "
+             "cells or grid columns. NOT decided: the state reached by arbitrary merge/split sequences, text order values.",
+        technique="static analysis: statement-order dominance of refusal guards, attribute-set agreement between sibling "
+                  "functions, slice-to-interval decoding compared in polynomial normal form, must-call chain, loop-sum "
+                  "polynomial identity, who-may-call rule",
+        design="DESIGN.md §4 C14",
+    ),
     "C15": dict(
         level="other",
         text="Structural clauses of 'images are stored once, with the type of the actual image': the four literal tables are "
@@ -200,7 +219,7 @@ _NOT_BUILT = "decidable structural clause designed in DESIGN.md but its checker 
 NOT_APPLICABLE = {
     "C01": _NOT_BUILT, "C02": _NOT_BUILT, "C04": _NOT_BUILT,
     "C06": _NOT_BUILT, "C08": _NOT_BUILT, "C09": _NOT_BUILT,
-    "C12": _NOT_BUILT, "C13": _NOT_BUILT, "C14": _NOT_BUILT,
+    "C12": _NOT_BUILT, "C13": _NOT_BUILT,
     "C16": _NOT_BUILT, "C17": _NOT_BUILT, "C18": _NOT_BUILT,
     "C19": "part-name arithmetic is an equation between values of pure string functions (posixpath "
            "semantics) over all name pairs; no table, ordering or ownership fact in the source determines it; "
